@@ -279,7 +279,7 @@ public:
                     switch(e.kind)
                     {
                     case 0x9: e.a = (int)r.below(128); e.b = (int)r.range(1, 127); e.dur = r.chance(0.8) ? (uint32_t)r.range(1, 200) : (uint32_t)r.range(200, 20000); run.count("xmi.note_duration"); break;
-                    case 0xB: e.a = r.pick<int>({ 1, 7, 10, 11, 64, 91, 93, 32 }); e.b = (int)r.below(128); break;
+                    case 0xB: e.a = r.pick<int>({ 1, 7, 10, 11, 64, 91, 93, 32, 110, 111, 110, 111 }); e.b = (int)r.below(128); break;   // 110/111: AIL channel lock - plain controllers in an XMI (loop markers only in other formats)
                     case 0xC: e.a = (int)r.below(128); break;
                     case 0xE: e.a = (int)r.below(128); e.b = (int)r.below(128); break;
                     case 0xD: e.a = (int)r.below(128); break;
